@@ -17,6 +17,16 @@ functions are replaced by a fake clock which the harness advances by the case's 
 between the reads of a chunked feed and never inside the whole-stream feed, so any dependence of the receiver on
 a clock shows up as a dependence on the chunking.  Long streams (33..150 repetitions of well-formed frames,
 queues not drained) are part of both the sweep and the generated streams.
+
+Several receivers ("multi"): two or three receiver objects (LUBA+LUBA, SCI+SCI, LUBA+SCI, ...) alive in one program
+are read in turns under a generated schedule of (receiver, number of bytes); each must deliver what the reference
+extracts from ITS OWN stream (= what it delivers as the only receiver, fed in the same pieces).
+Transmissions between reads ("txmid"): between two reads the program starts a transmission through the protocol
+object's public transmit side (send_dali_command / send_device_info_query / send_device_settings /
+reset_dali_response) on a private asyncio loop; the queues are collected first, the transmission runs until it waits
+for the gateway and is cancelled; the items delivered from the receive stream must still be the reference's.
+Both have a deterministic sweep (every frame kind cut at every position x every partner frame kind / transmit
+operation) and a Hypothesis part over the grammar streams.
 """
 import logging
 
@@ -34,7 +44,10 @@ RULE = ("one case = (protocol, byte stream, two chunkings); streams are drawn fr
         "stream contains a LUBA length byte >= 20 at a frame's length position, or the reference delivers more than "
         "32 items from one stream (long streams: 33..150 repetitions of well-formed frames, nothing drained in "
         "between); every read of a chunked feed happens after a pause of 0 / 0.05 / 0.25 / 5 s on a clock that only "
-        "the harness advances (part of the case)")
+        "the harness advances (part of the case); multi: one case = (2-3 receivers with their streams, read schedule), "
+        "non-trivial = some receiver is left inside a frame the reference delivers while another receiver reads; txmid: "
+        "one case = (protocol, stream, reads, transmit operations before given reads), non-trivial = a transmission "
+        "starts at an offset strictly inside a frame the reference delivers")
 ASSUMPTIONS = [
     "resynchronisation rule (design choice, taken from the receivers' own state machines on well-formed prefixes): a "
     "LUBA frame dropped for a bad checksum or an unknown command code is consumed as a whole (length+4 bytes), the "
@@ -55,6 +68,13 @@ ASSUMPTIONS = [
     "also where the driver module imported them by name); a receiver that reads time some other way is not covered; "
     "the queues are not drained while a stream is fed (the property's observation point is their content AFTER "
     "data_received), so a long stream needs as many queue slots as it has items",
+    "txmid: the program collects the receiver's queues before it transmits (so the transmit side finds nothing to "
+    "consume and what was delivered before stays observed), and gives up the transmission (cancels it) as soon as it "
+    "waits for the gateway's confirmation/reply; whatever the transmit side itself does or raises is not judged here "
+    "(C15-C18), only what reception delivers around it.  The confirmation a real gateway would send is therefore never "
+    "needed; a transmission that runs to completion with scripted confirmations belongs to the driver scenarios",
+    "multi: receiver objects are created up front, each is only ever given bytes of its own stream; reads of different "
+    "receivers never overlap in time (one thread, one event loop - as in the drivers)",
     "a transmit confirmation is compared by tx_id; its decoded message is compared (frame bytes) only when the "
     "driver managed to decode one; an observed command is compared by the bytes of its frame",
 ]
@@ -318,6 +338,10 @@ def _judge(proto, stream, cutlists, gaplists=None, pause=None):
 
 
 def run_case(case):
+    if case.get("kind") == "multi":
+        return _judge_multi(case) or []
+    if case.get("kind") == "txmid":
+        return _judge_txmid(case) or []
     proto = case["proto"]
     stream = bytes.fromhex(case["stream"])
     cutlists = case.get("cuts", [])
@@ -382,6 +406,282 @@ def classify(case):
         if t[0] == "bad-length" and case["proto"] == "luba":
             labs.append("luba:ref:bad-length:%s" % ("0" if t[2] == 0 else "21-23" if t[2] <= 23 else "24+"))
     return labs
+
+
+# ------------------------------------------------ several receivers / transmissions ----
+# The property speaks about "the receivers": what one receiver delivers is a function of ITS byte stream alone.
+#  multi   two or three receiver objects (LUBA and/or SCI, e.g. two serial ports) alive in one program, fed in
+#          turns, a few bytes at a time: each must deliver exactly what the reference extracts from its own stream
+#          (and what it delivers when it is the only receiver).
+#  txmid   between two reads the program uses the protocol object's own transmit side (send_dali_command,
+#          send_device_info_query, send_device_settings, reset_dali_response).  The queues are collected first (the
+#          observation point of the property: their content after data_received), so nothing is there for the
+#          transmit side to consume; the transmission is started, runs until it waits for the gateway, and is then
+#          cancelled (a caller's timeout).  The items delivered from the receive stream must still be the reference's.
+_LOOP = []
+
+
+def _loop():
+    if not _LOOP:
+        import asyncio
+        _LOOP.append(asyncio.new_event_loop())
+    return _LOOP[0]
+
+
+class _Sink:
+    """transport stand-in: the bytes go nowhere"""
+
+    def __init__(self):
+        self.written = []
+
+    def write(self, data):
+        self.written.append(bytes(data))
+
+    def close(self):
+        pass
+
+
+TX_OPS = {"luba": ["send", "send", "info", "settings", "resetq"], "sci": ["send", "send", "info", "resetq"]}
+
+
+def _tx_commands():
+    import dali.gear.general as gg
+    import dali.device.general as dg
+    from dali.address import Broadcast, DeviceShort
+    return [gg.DAPC(1, 10), gg.QueryStatus(3), gg.Reset(4), gg.Off(Broadcast()), dg.QueryDeviceStatus(DeviceShort(1))]
+
+
+def _transmit(p, proto, op, cmdno):
+    """Start one transmission through the protocol object, let it run until it waits, cancel it.
+    -> None or the exception the library raised (not judged here: C15-C18)."""
+    import asyncio
+    if op == "resetq":
+        p.reset_dali_response()
+        return None
+    cmds = _tx_commands()
+    if op == "send":
+        coro = p.send_dali_command(cmds[cmdno % len(cmds)])
+    elif op == "info":
+        coro = p.send_device_info_query()
+    elif op == "settings":
+        coro = p.send_device_settings()
+    else:
+        raise ValueError(op)
+
+    async def go():
+        t = asyncio.ensure_future(coro)
+        for _ in range(4):
+            await asyncio.sleep(0)
+        t.cancel()
+        try:
+            await t
+        except asyncio.CancelledError:
+            return None
+        except Exception as e:  # noqa
+            if library_frame(e.__traceback__) is None:
+                raise
+            return e
+        return None
+    return _loop().run_until_complete(go())
+
+
+def _merge(acc, got):
+    for k, v in got.items():
+        acc.setdefault(k, []).extend(v)
+    return acc
+
+
+def feed_tx(proto, chunks, txs, gaps=(0.0,)):
+    """Like feed(), with transmissions: txs = {chunk number: [(op, command number)]} happen BEFORE that chunk is
+    read.  The queues are collected before every transmission and at the end; the collections are concatenated."""
+    p, child = _new(proto)
+    p.transport = _Sink()
+    acc = {}
+    exc = None
+    off = 0
+    clock = FakeClock()
+    for k, ch in enumerate(chunks):
+        if k in txs:
+            _merge(acc, _collect(proto, p, child))
+            for op, cmdno in txs[k]:
+                _transmit(p, proto, op, cmdno)
+        if k:
+            clock.advance(gaps[(k - 1) % len(gaps)])
+        try:
+            with clock:
+                p.data_received(ch)
+        except Exception as e:  # noqa: the property forbids any exception here
+            exc = (off, e)
+            break
+        off += len(ch)
+    if exc is not None and library_frame(exc[1].__traceback__) is None:
+        raise exc[1]
+    _merge(acc, _collect(proto, p, child))
+    return acc, exc
+
+
+def _reads(lengths, schedule):
+    """The reads of a schedule [(receiver number, number of bytes)]: the schedule is repeated until every stream is
+    used up (what is left when a whole round moves nothing is read in one piece, receiver by receiver).
+    -> [(receiver, from, to)]"""
+    n = len(lengths)
+    pos = [0] * n
+    out = []
+    while any(pos[i] < lengths[i] for i in range(n)):
+        moved = False
+        for i, k in schedule:
+            i %= n
+            if k > 0 and pos[i] < lengths[i]:
+                b = min(lengths[i], pos[i] + k)
+                out.append((i, pos[i], b))
+                pos[i] = b
+                moved = True
+        if not moved:
+            for i in range(n):
+                if pos[i] < lengths[i]:
+                    out.append((i, pos[i], lengths[i]))
+                    pos[i] = lengths[i]
+    return out
+
+
+def feed_multi(rx, schedule, gaps=(0.0,)):
+    """rx: [(proto, stream)], schedule: see _reads().
+    -> [(queues, exc)] per receiver, [[chunk]] per receiver (for feeding each alone in the same pieces)"""
+    objs = [_new(proto) for proto, _ in rx]
+    pieces = [[] for _ in rx]
+    excs = [None] * len(rx)
+    clock = FakeClock()
+    k = 0
+    for i, a, b in _reads([len(st_) for _, st_ in rx], schedule):
+        if excs[i] is not None:
+            continue
+        ch = rx[i][1][a:b]
+        if k:
+            clock.advance(gaps[(k - 1) % len(gaps)])
+        k += 1
+        try:
+            with clock:
+                objs[i][0].data_received(ch)
+        except Exception as e:  # noqa
+            if library_frame(e.__traceback__) is None:
+                raise
+            excs[i] = (a, e)
+        pieces[i].append(ch)
+    return [(_collect(rx[i][0], objs[i][0], objs[i][1]), excs[i]) for i in range(len(rx))], pieces
+
+
+def _deframe(proto, stream):
+    return (RW.luba_deframe if proto == "luba" else RW.sci_deframe)(stream)
+
+
+def _inside_delivered(proto, stream, ref, p):
+    """Is stream offset p strictly inside a frame from which the reference delivers an item?"""
+    for t in ref["trace"]:
+        if t[0] == "delivered":
+            a = t[1]
+            b = a + (5 if proto == "sci" else 4 + stream[a + 2])
+            if a < p < b:
+                return True
+    return False
+
+
+def _rx_of(case):
+    return [(r["proto"], bytes.fromhex(r["stream"])) for r in case["rx"]]
+
+
+def _judge_multi(case):
+    rx = _rx_of(case)
+    refs = [_deframe(proto, st_) for proto, st_ in rx]
+    if any(r["malformed"] for r in refs):
+        return None
+    gaps = case.get("gaps") or [0.0]
+    results, pieces = feed_multi(rx, case["schedule"], gaps)
+    combo = "+".join(proto for proto, _ in rx)
+    out = []
+    for i, ((got, exc), ref) in enumerate(zip(results, refs)):
+        proto, stream = rx[i]
+        how = "receiver %d of %d (%s), read in turns with the others in pieces of %r" % (
+            i + 1, len(rx), combo, [len(c) for c in pieces[i]][:24])
+        if exc is not None:
+            off, e = exc
+            out.append(("C19:%s:data_received-raised:%s@%s" % (proto, type(e).__name__, library_frame(e.__traceback__)),
+                        "%s: data_received raised %r in the read starting at offset %d" % (how, e, off)))
+            continue
+        vs = _compare(proto, ref, got, how, stream)
+        if vs:
+            alone, exc2 = feed(proto, stream, pieces[i], gaps)
+            if exc2 is None and not _compare(proto, ref, alone, how, stream):
+                # fed alone in the same pieces it is right: the receivers are not independent of each other
+                vs = [("C19:%s:receivers-not-independent" % proto,
+                       "%s; the same pieces fed to it as the only receiver give the reference's items.  %s"
+                       % (how, vs[0][1][:600]))]
+        out.extend(vs)
+    seen = {}
+    for sig, msg in out:
+        seen.setdefault(sig, msg)
+    return list(seen.items())
+
+
+def _judge_txmid(case):
+    proto, stream = case["proto"], bytes.fromhex(case["stream"])
+    ref = _deframe(proto, stream)
+    if ref["malformed"]:
+        return None
+    chunks = _chunks(stream, case["cuts"])
+    gaps = case.get("gaps") or [0.0]
+    txs = {}
+    for k, op, cmdno in case["tx"]:
+        if chunks:
+            txs.setdefault(k % len(chunks), []).append((op, cmdno))
+    got, exc = feed_tx(proto, chunks, txs, gaps)
+    how = "reads of %r bytes with %s" % ([len(c) for c in chunks][:24], ", ".join(
+        "%s before read %d" % ("/".join(op for op, _ in v), k + 1) for k, v in sorted(txs.items())))
+    if exc is not None:
+        off, e = exc
+        return [("C19:%s:data_received-raised:%s@%s" % (proto, type(e).__name__, library_frame(e.__traceback__)),
+                 "%s: data_received raised %r in the read starting at offset %d" % (how, e, off))]
+    vs = _compare(proto, ref, got, how, stream)
+    if vs:
+        plain, exc2 = feed(proto, stream, chunks, gaps)
+        if exc2 is None and not _compare(proto, ref, plain, how, stream):
+            vs = [("C19:%s:transmission-disturbs-reception" % proto,
+                   "%s (each started through the protocol object, run until it waits for the gateway, cancelled); "
+                   "without the transmissions the same reads give the reference's items.  %s" % (how, vs[0][1][:600]))]
+    seen = {}
+    for sig, msg in vs:
+        seen.setdefault(sig, msg)
+    return list(seen.items())
+
+
+def _tx_offsets(case):
+    stream = bytes.fromhex(case["stream"])
+    chunks = _chunks(stream, case["cuts"])
+    offs = [0]
+    for c in chunks:
+        offs.append(offs[-1] + len(c))
+    return [offs[k % len(chunks)] for k, _op, _c in case["tx"]] if chunks else []
+
+
+def nontrivial2(case):
+    if case["kind"] == "txmid":
+        proto, stream = case["proto"], bytes.fromhex(case["stream"])
+        ref = _deframe(proto, stream)
+        return not ref["malformed"] and any(_inside_delivered(proto, stream, ref, p) for p in _tx_offsets(case))
+    rx = _rx_of(case)
+    refs = [_deframe(proto, st_) for proto, st_ in rx]
+    if any(r["malformed"] for r in refs):
+        return False
+    reads = _reads([len(st_) for _, st_ in rx], case["schedule"])
+    for (i, a, b), (j, _c, _d) in zip(reads, reads[1:]):
+        if i != j and b < len(rx[i][1]) and _inside_delivered(rx[i][0], rx[i][1], refs[i], b):
+            return True         # another receiver reads while this one is inside a frame that must be delivered
+    return False
+
+
+def classify2(case):
+    if case["kind"] == "txmid":
+        return ["txmid:%s:%s" % (case["proto"], op) for _k, op, _c in case["tx"]]
+    return ["multi:" + "+".join(sorted(r["proto"] for r in case["rx"]))]
 
 
 # ------------------------------------------------------------------- strategies ----
@@ -578,6 +878,121 @@ def stream_strategy(proto, with_malformed):
     return st.integers(0, 65535).flatmap(lambda k: long_ if ((k ^ 0x3A7F) * 40503) % 65521 % 10 == 0 else normal)
 
 
+def multi_strategy():
+    combos = [["luba", "luba"], ["sci", "sci"], ["luba", "sci"], ["luba", "luba"], ["luba", "luba", "luba"],
+              ["luba", "sci", "luba"], ["sci", "luba", "sci"]]
+    # streams of the grammar, cut after 260 bytes (several receivers multiply the number of reads)
+    per = {p: stream_strategy(p, False).map(lambda c: c["stream"][:520]) for p in ("luba", "sci")}
+    size = st.one_of(st.integers(1, 6), st.integers(1, 6), st.integers(1, 40))
+    sched = st.lists(st.tuples(st.integers(0, 2), size), min_size=2, max_size=90)
+    gaps = st.lists(st.sampled_from(GAPS), min_size=1, max_size=6)
+
+    def build(ps):
+        return st.tuples(sched, gaps, *[per[p] for p in ps]).map(
+            lambda t: {"kind": "multi", "rx": [{"proto": p, "stream": x} for p, x in zip(ps, t[2:])],
+                       # taking turns is the default, the drawn number moves a read to another receiver
+                       "schedule": [[(j + e[0]) % len(ps), e[1]] for j, e in enumerate(t[0])], "gaps": t[1]})
+    return st.sampled_from(combos).flatmap(build)
+
+
+def txmid_strategy(proto):
+    ops = st.sampled_from(TX_OPS[proto])
+    tx = st.lists(st.tuples(st.integers(0, 15), ops, st.integers(0, 4)), min_size=0, max_size=3)
+    # aimed transmissions: (which of the frames the reference delivers, where inside it, operation, command)
+    aimed = st.lists(st.tuples(st.integers(0, 40), st.integers(0, 30), ops, st.integers(0, 4)), min_size=1, max_size=3)
+
+    def build(t):
+        c, txs, aims = t
+        stream = bytes.fromhex(c["stream"])
+        n = len(stream)
+        cuts = [x % (n + 1) for x in c["cuts"][0]]
+        ref = _deframe(proto, stream)
+        frames = [(x[1], 5 if proto == "sci" else 4 + stream[x[1] + 2]) for x in ref["trace"] if x[0] == "delivered"]
+        at = []
+        for f, o, op, cmdno in aims:
+            if frames:
+                a, ln = frames[f % len(frames)]
+                cut = a + 1 + o % (ln - 1)
+                cuts.append(cut)
+                at.append((cut, op, cmdno))
+        pts = sorted(set(cuts) | {0, n})
+        out = [[k, op, cmdno] for k, op, cmdno in txs]
+        out += [[pts.index(cut), op, cmdno] for cut, op, cmdno in at]
+        if not out:
+            out = [[1, TX_OPS[proto][0], 0]]
+        return {"kind": "txmid", "proto": proto, "stream": c["stream"], "cuts": cuts, "gaps": c["gaps"][0], "tx": out}
+    return st.tuples(stream_strategy(proto, False), tx, aimed).map(build)
+
+
+def _sweep2_cases():
+    """Deterministic part for several receivers / transmissions: every kind of frame cut at every position, with
+    (a) a whole frame of every kind read by ANOTHER receiver in between, (b) every transmit operation in between."""
+    kinds = _frame_kinds()
+    good = {"luba": RW.luba_event_received([0xA5]), "sci": RW.sci_frame(0x02, 0, 0, 0x5A)}
+    for pa in ("luba", "sci"):
+        for pb in ("luba", "sci"):
+            for na, fa in kinds[pa]:
+                sa = fa + good[pa]
+                for j, (nb, fb) in enumerate(kinds[pb]):
+                    sb = fb + good[pb]
+                    for k in range(1, len(fa)):
+                        if (k + j) % 2 and len(fa) > 6:
+                            continue        # long frames: every other cut per partner frame
+                        yield {"kind": "multi", "rx": [{"proto": pa, "stream": sa.hex()}, {"proto": pb, "stream": sb.hex()}],
+                               "schedule": [[0, k], [1, len(fb)], [0, len(fa) - k], [1, 2], [0, 3]],
+                               "gaps": [0.0, 0.05], "segs": [na, nb]}
+    for proto in ("luba", "sci"):
+        for na, fa in kinds[proto]:
+            sa = fa + good[proto]
+            for k in range(1, len(fa)):
+                for j, op in enumerate(sorted(set(TX_OPS[proto]))):
+                    yield {"kind": "txmid", "proto": proto, "stream": sa.hex(), "cuts": [k], "gaps": [0.05],
+                           "tx": [[1, op, (k + j) % 5]], "segs": [na]}
+            # several transmissions, one before every read of a byte-by-byte feed
+            yield {"kind": "txmid", "proto": proto, "stream": sa.hex(), "cuts": list(range(len(sa))), "gaps": [0.0],
+                   "tx": [[k, TX_OPS[proto][k % len(TX_OPS[proto])], k % 5] for k in range(len(sa))], "segs": [na]}
+
+
+def _aside2(case):
+    if case["kind"] == "txmid":
+        return _deframe(case["proto"], bytes.fromhex(case["stream"]))["malformed"]
+    return any(_deframe(proto, st_)["malformed"] for proto, st_ in _rx_of(case))
+
+
+def _sweep2_shard(arg):
+    k, nshards = arg
+    res = Result()
+    for idx, case in enumerate(_sweep2_cases()):
+        if idx % nshards != k:
+            continue
+        res.count()
+        if _aside2(case):
+            res.excluded["set-aside:checksum-valid-frame-malformed-for-its-type"] += 1
+            continue
+        if nontrivial2(case):
+            res.nontrivial()
+        for lab in classify2(case):
+            res.label(lab)
+        for sig, msg in run_case(case):
+            res.violation(sig, case, msg)
+    return res
+
+
+def _hyp2_shard(arg):
+    which, seed, n = arg
+    res = Result()
+
+    def rc(case):
+        if _aside2(case):
+            res.excluded["set-aside:checksum-valid-frame-malformed-for-its-type"] += 1
+            return []
+        return run_case(case)
+
+    strat = multi_strategy() if which == "multi" else txmid_strategy(which.split(":")[1])
+    hyp.search(strat, rc, res, n, seed, ID, nontrivial=nontrivial2, classify=classify2)
+    return res
+
+
 # ------------------------------------------------------------------------ shards ----
 def _record(res, case, vs):
     """Violations of confirmed defects are counted, the rest is returned for the search."""
@@ -655,7 +1070,31 @@ def _sweep_cases():
     yield {"proto": "sci", "stream": RW.sci_frame(0x03, 0, *UNKNOWN16).hex(), "cuts": [], "segs": ["observed-unknown"]}
     yield {"proto": "sci", "stream": RW.sci_frame(0x08, *UNKNOWN24).hex(), "cuts": [], "segs": ["observed-unknown"]}
     # long streams: many repetitions of every well-formed frame kind, and mixtures, nothing drained in between
-    kinds = {
+    kinds = _frame_kinds()
+    for proto in ("luba", "sci"):
+        good_ = good if proto == "luba" else sgood
+        ks = kinds[proto]
+        for count in (40, 70, 150):
+            for name, fr in ks:
+                s = fr * count + good_
+                yield {"proto": proto, "stream": s.hex(), "cuts": [[len(fr) + 2, 7 * len(fr) - 1], [len(s) // 2 + 1]],
+                       "gaps": [[0.25, 0.0], [5.0]], "pause": GAPS[1 + count % 3],
+                       "segs": ["long:" + name], "tail": {"mode": "direct", "len": len(good_)}}
+            # mixtures: all kinds taking turns; delivered kinds only; pairs of kinds
+            mixes = [ks, [k for k in ks if k[0] in ("backward", "sent", "observed16", "observed24", "status", "error")]]
+            mixes += [[ks[i], ks[(i + 1 + count % 3) % len(ks)]] for i in range(len(ks))]
+            for mix in mixes:
+                unit = b"".join(fr for _, fr in mix)
+                reps = -(-count // len(mix)) if len(mix) > 2 else count
+                s = unit * reps + good_
+                yield {"proto": proto, "stream": s.hex(), "cuts": [[3, len(unit) + 1, len(s) - 2], [len(s) // 3, len(s) // 3 * 2 + 1]],
+                       "gaps": [[0.05, 5.0, 0.0], [0.25]], "pause": GAPS[(count // 10) % 4],
+                       "segs": ["long:" + "+".join(k for k, _ in mix)], "tail": {"mode": "direct", "len": len(good_)}}
+
+
+def _frame_kinds():
+    """One frame of every kind per protocol (well-formed ones of every type, plus dropped ones)."""
+    return {
         "luba": [("backward", RW.luba_event_received([0x5A])),
                  ("sent", RW.luba_event_sent(7, POOL16[0])),
                  ("sent24", RW.luba_event_sent(9, POOL24[0])),
@@ -681,25 +1120,6 @@ def _sweep_cases():
                 ("unknown-command", RW.sci_frame(0x0C, 1, 2, 3)),
                 ("bad-checksum", RW.sci_frame(0x02, 0, 0, 0x11, bad_checksum=0x40))],
     }
-    for proto in ("luba", "sci"):
-        good_ = good if proto == "luba" else sgood
-        ks = kinds[proto]
-        for count in (40, 70, 150):
-            for name, fr in ks:
-                s = fr * count + good_
-                yield {"proto": proto, "stream": s.hex(), "cuts": [[len(fr) + 2, 7 * len(fr) - 1], [len(s) // 2 + 1]],
-                       "gaps": [[0.25, 0.0], [5.0]], "pause": GAPS[1 + count % 3],
-                       "segs": ["long:" + name], "tail": {"mode": "direct", "len": len(good_)}}
-            # mixtures: all kinds taking turns; delivered kinds only; pairs of kinds
-            mixes = [ks, [k for k in ks if k[0] in ("backward", "sent", "observed16", "observed24", "status", "error")]]
-            mixes += [[ks[i], ks[(i + 1 + count % 3) % len(ks)]] for i in range(len(ks))]
-            for mix in mixes:
-                unit = b"".join(fr for _, fr in mix)
-                reps = -(-count // len(mix)) if len(mix) > 2 else count
-                s = unit * reps + good_
-                yield {"proto": proto, "stream": s.hex(), "cuts": [[3, len(unit) + 1, len(s) - 2], [len(s) // 3, len(s) // 3 * 2 + 1]],
-                       "gaps": [[0.05, 5.0, 0.0], [0.25]], "pause": GAPS[(count // 10) % 4],
-                       "segs": ["long:" + "+".join(k for k, _ in mix)], "tail": {"mode": "direct", "len": len(good_)}}
 
 
 def _sweep_shard(arg):
@@ -727,7 +1147,13 @@ def run(ctx):
     shards = [("luba", ctx.seed * 1000 + k, n_luba) for k in range(12)] + \
              [("sci", ctx.seed * 1000 + 500 + k, n_sci) for k in range(4)]
     ctx.pmap(_hyp_shard, shards)
+    ctx.pmap(_sweep2_shard, [(k, 16) for k in range(16)])
+    n_multi, n_tx = (250, 300) if ctx.quick else (8000, 5000)
+    ctx.pmap(_hyp2_shard, [("multi", ctx.seed * 1000 + 700 + k, n_multi) for k in range(4)] +
+             [("txmid:luba", ctx.seed * 1000 + 800 + k, n_tx) for k in range(3)] +
+             [("txmid:sci", ctx.seed * 1000 + 900, n_tx)])
     ctx.result.exhaustive = False
+    ctx.result.extra["hypothesis_examples_several_receivers"] = {"multi (4 shards)": n_multi, "txmid (3 luba + 1 sci)": n_tx}
     ctx.result.extra["hypothesis_examples_per_shard"] = {"luba (12 shards)": n_luba, "sci (4 shards)": n_sci}
     ctx.result.extra["sweep"] = "every LUBA length byte 0..255 x 3 command bytes x 4 fillers x 2 tails; every LUBA " \
                                 "command code; every LUBA event status byte; every SCI status byte; every SCI checksum error; " \
